@@ -435,7 +435,7 @@ m("C03","burn-then-credit","x/storage/keeper/rewards.go",
 	}""","""		k.burnContract(ctx, providerAddress)
 	}""","C03/R2","rewards:path-classes")
 m("C03","credit-without-proof","x/storage/keeper/rewards.go",
-  'if !proven && !file.IsYoung(currentHeight) { // if file wasn\'t proven, and is old, we burn it.','if !proven && !file.IsYoung(currentHeight) && found { // if file wasn\'t proven, and is old, we burn it.',"C03/R2","rewards:credit-guard")
+  'if !proven && !file.IsYoung(currentHeight) { // if file wasn\'t proven, and is old, we burn it.','if !proven && !file.IsYoung(currentHeight) && proof.ChunkToProve > 0 { // if file wasn\'t proven, and is old, we burn it.',"C03/R2","rewards:credit-guard")
 m("C03","burn-young-files","x/storage/keeper/rewards.go",
   'if !proven && !file.IsYoung(currentHeight) { // if file wasn\'t proven, and is old, we burn it.','if !proven { // if file wasn\'t proven, and is old, we burn it.',"C03/R2","rewards:burn-guard")
 m("C03","proven-uses-start","x/storage/keeper/rewards.go",
@@ -707,6 +707,10 @@ m("C07","plan-loaded-by-payer","x/storage/keeper/msg_server_buy_storage.go",
 
 exec(open(os.path.join(os.path.dirname(os.path.abspath(__file__)), 'extra.py')).read())
 
+# the table is the corpus: entries written by an earlier run and no longer in it are removed
+import glob as _glob
+for _old in _glob.glob(os.path.join(os.path.dirname(os.path.abspath(__file__)), "C[0-9][0-9]", "*.json")):
+    os.remove(_old)
 for x in M:
     d = os.path.join(os.path.dirname(os.path.abspath(__file__)), x["property"])
     os.makedirs(d, exist_ok=True)
